@@ -301,6 +301,23 @@ fn forwarded_call_exec(kind: &usize, ctx: &WorkerCtx) -> ExecResult {
         let ok = sent && all == vec![("caller".to_string(), want.clone())];
         let env_name = ["another local process", "a process of another node", "the server itself", "the caller"][kind % 4];
         if !ok { res.violations.push(("a call delivered in an envelope with another sender is not answered once to the caller named in the call".into(), json!({"envelope_sender": env_name, "received": all, "expected": [["caller", want]]}))); }
+        // two callers that happen to number their calls alike: consecutive calls carrying equal references are two calls
+        {
+            let second = node.spawn(Rec { name: "second".into(), log: log.clone() }).await.unwrap();
+            let same = ExternalReference::new(erltf::types::Atom::new("x@h"), 1, vec![1, 0, 0]);
+            let mk = |from: &ExternalPid, q: &str| OwnedTerm::Tuple(vec![OwnedTerm::atom("$gen_call"), OwnedTerm::Tuple(vec![OwnedTerm::Pid(from.clone()), OwnedTerm::Reference(same.clone())]), OwnedTerm::atom(q)]);
+            let _ = node.send(&gs, mk(&caller, "one")).await;
+            let _ = node.send(&gs, mk(&second, "two")).await;
+            let _ = node.send(&gs, mk(&caller, "three")).await;
+            settle_local(&lw.w, &probe).await;
+            let w = |q: &str| format!("msg:{}", RefVal::Tuple(vec![den_ref(&same), RefVal::Tuple(vec![RefVal::atom("echo"), RefVal::atom(q)])]));
+            let all: Vec<(String, String)> = log.lock().unwrap().clone();
+            let got_caller: Vec<String> = all.iter().filter(|x| x.0 == "caller").map(|x| x.1.clone()).skip(if all.iter().any(|x| x.0 == "caller" && x.1 == want) { 1 } else { 0 }).collect();
+            let got_second: Vec<String> = all.iter().filter(|x| x.0 == "second").map(|x| x.1.clone()).collect();
+            if got_caller != vec![w("one"), w("three")] || got_second != vec![w("two")] {
+                res.violations.push(("gen_server call not answered exactly once to its caller".into(), json!({"what": "three consecutive calls carrying the same reference, from two callers", "first_caller_received": got_caller, "second_caller_received": got_second})));
+            }
+        }
         res.steps = 1;
         res.outcome = format!("forwarded call {}", kind);
         res
